@@ -240,6 +240,21 @@ func genMatcherCase(t *testing.T, r *hx.RNG, c drvCfg, weights map[string]int) m
 				from := pickRouter(rr, c)
 				meta["ttl"], meta["from"], meta["form"] = fmt.Sprint(ttl), from.String(), "te/quoted-opts-mimic"
 				return ip4Packet(from, c.Local, 1, 0x2222, 250, 0, 0, nil, icmp4Msg(11, 0, [4]byte{}, q)), meta
+			case "other-family":
+				// a genuine IPv4 reply re-encapsulated in IPv6 between the IPv4-MAPPED forms of the same
+				// addresses (::ffff:a.b.c.d): every identifier is right, the IP version is not. A parser
+				// that normalises mapped addresses makes such a packet fill a hop of the IPv4 run.
+				ttl, ok := pickSent()
+				if !ok || probeOf(ttl) == nil || c.v6() {
+					return rr.Bytes(20), map[string]string{"stream": "noise"}
+				}
+				from := responderFor(rr, c, f)
+				pkt := mappedV6Of(f.encode(c.flow(), probeOf(ttl), from, ttl, seqOfProbe(probeOf(ttl))))
+				if pkt == nil {
+					return rr.Bytes(20), map[string]string{"stream": "noise"}
+				}
+				meta["ttl"], meta["from"] = fmt.Sprint(ttl), from.String()
+				return pkt, meta
 			case "own-probe":
 				ttl, ok := pickSent()
 				if !ok || probeOf(ttl) == nil {
@@ -313,4 +328,61 @@ func summariseOutcome(tok string) string {
 		return tok[:i]
 	}
 	return tok
+}
+
+// mappedV6Of re-encapsulates an IPv4 packet as the IPv6 packet between the IPv4-mapped forms of its
+// addresses: TCP/UDP payloads are carried as they are, ICMPv4 echo replies and errors become their
+// ICMPv6 counterparts (a quoted IPv4 header becomes a quoted IPv6 header between mapped addresses, a
+// quoted echo request an ICMPv6 echo request). nil when the packet has no such counterpart.
+func mappedV6Of(pkt []byte) []byte {
+	conv := func(h []byte) (src, dst netip.Addr, proto byte, ttl byte, pl []byte, ok bool) {
+		if len(h) < 20 || h[0]>>4 != 4 {
+			return
+		}
+		ihl := int(h[0]&0xf) * 4
+		if ihl < 20 || len(h) < ihl {
+			return
+		}
+		m := func(b []byte) netip.Addr {
+			var a [16]byte
+			a[10], a[11] = 0xff, 0xff
+			copy(a[12:], b)
+			return netip.AddrFrom16(a)
+		}
+		return m(h[12:16]), m(h[16:20]), h[9], h[8], h[ihl:], true
+	}
+	src, dst, proto, ttl, pl, ok := conv(pkt)
+	if !ok {
+		return nil
+	}
+	switch proto {
+	case 6, 17:
+		return ip6Packet(src, dst, proto, ttl, pl)
+	case 1:
+		if len(pl) < 8 {
+			return nil
+		}
+		rest := [4]byte{pl[4], pl[5], pl[6], pl[7]}
+		switch pl[0] {
+		case 0: // echo reply
+			return ip6Packet(src, dst, 58, ttl, icmp6Msg(src, dst, 129, 0, rest, pl[8:]))
+		case 11, 3:
+			qs, qd, qp, qt, ql4, ok := conv(pl[8:])
+			if !ok {
+				return nil
+			}
+			if qp == 1 {
+				qp = 58
+				if len(ql4) >= 1 && ql4[0] == 8 {
+					ql4 = append([]byte{128}, ql4[1:]...)
+				}
+			}
+			typ, code := byte(3), byte(0) // time exceeded / hop limit
+			if pl[0] == 3 {
+				typ, code = 1, 4 // destination unreachable / port unreachable
+			}
+			return ip6Packet(src, dst, 58, ttl, icmp6Msg(src, dst, typ, code, [4]byte{}, ip6Packet(qs, qd, qp, qt, ql4)))
+		}
+	}
+	return nil
 }
